@@ -20,7 +20,7 @@ EXPLANATION = (
     "and switched off again, the real manager rejects the application as a fresh one does (R8).  Environment "
     "services interpreted after a history of other formulas built, queried, transformed and printed - two stores "
     "over one array value included; functools.lru_cache / cache on a helper is modelled, so a cached mutable result "
-    "handed to several callers is seen - answer as in a fresh environment (R7).  Importing formulas into an environment from two sources whose node ids coincide gives the copies a fresh target gives (R10); module-level procedures (cnf, nnf, aig, prenex, get_logic) called with a second environment on top of the stack answer as when the first did nothing (part of R9).")
+    "handed to several callers is seen - answer as in a fresh environment (R7).  Importing formulas into an environment from two sources whose node ids coincide gives the copies a fresh target gives (R10); module-level procedures (cnf, nnf, aig, prenex, get_logic) called with a second environment on top of the stack answer as when the first did nothing (part of R9).  The substitution map belongs to the caller: after a substitution that fails inside the body of a quantifier, or succeeds, the map holds what it held and a later call with the same map object answers like one with a fresh copy (R11).")
 NOT_DECIDED = ["ordering effects of set iteration (allowed by the property: 'up to the order of commutative arguments')"]
 
 
